@@ -26,7 +26,7 @@ type c28Req struct {
 }
 
 func TestC28(t *testing.T) {
-	rec := ev.New("C28", "1..6 pipelined requests (GET, HEAD, POST with Content-Length / chunked / Expect: 100-continue, a malformed request or an oversized header in the middle) are written on one client connection in generated TCP segmentations; request bodies carry decoy request text; backends answer normally, right after the header section without reading the body, close-delimited, or with an unsolicited interim 100 Continue first; modules answer some requests themselves. Oracle: responses parse in order, response i echoes request i's target, no backend ever sees a target that was only sent as body bytes. non-trivial: >=2 requests and >=1 with a body; distinct by sequence shape + segmentation")
+	rec := ev.New("C28", "1..6 pipelined requests (GET, HEAD, POST with Content-Length / chunked / Expect: 100-continue, a malformed request or an oversized header in the middle) are written on one client connection in generated TCP segmentations, towards a cluster without or with backend keep-alive; request bodies carry decoy request text; backends answer normally, right after the header section without reading the body, close-delimited, or with an unsolicited interim 100 Continue first; modules answer some requests themselves. Oracle: responses parse in order, response i echoes request i's target, no backend ever sees a target that was only sent as body bytes. non-trivial: >=2 requests and >=1 with a body; distinct by sequence shape + segmentation")
 	w := startWorld(t, 2, sys.Options{MaxHeaderBytes: 8192, AfterInit: installFilters}, func(ports []int) *sys.DataConf {
 		cl := sys.Cluster{Name: "c", RetryMax: 0, TimeoutResponseHeaderMs: 3000, TimeoutReadClientMs: 3000}
 		sc := sys.SubCluster{Name: "c.sub", Weight: 100}
@@ -34,12 +34,28 @@ func TestC28(t *testing.T) {
 			sc.Backends = append(sc.Backends, sys.BackendSpec{Name: fmt.Sprintf("b%d", i), Addr: "127.0.0.1", Port: p, Weight: 10})
 		}
 		cl.Sub = []sys.SubCluster{sc}
-		return sys.SimpleConf("v0", []sys.Cluster{cl}, nil)
+		// the same backends behind a cluster with backend keep-alive (BFE's default of 2 idle
+		// connections per backend): consecutive requests of one client connection, and of
+		// consecutive cases, then share backend connections
+		ck := cl
+		ck.Name = "ck"
+		ck.MaxIdleConnsPerHost = 2
+		ksc := sc
+		ksc.Name = "ck.sub"
+		ck.Sub = []sys.SubCluster{ksc}
+		return sys.SimpleConf("v0", []sys.Cluster{cl, ck}, []sys.Rule{
+			{Cond: `req_path_prefix_in("/c28k/", false)`, Cluster: "ck"},
+			{Cond: `default_t()`, Cluster: "c"},
+		})
 	})
 	n := 0
 	rapid.Check(t, func(rt *rapid.T) {
 		n++
 		k := rapid.IntRange(1, 6).Draw(rt, "nreq")
+		pfx := "/c28"
+		if rapid.Bool().Draw(rt, "backend-keepalive") {
+			pfx = "/c28k"
+		}
 		var reqs []c28Req
 		var filtTargets []string
 		defer func() {
@@ -49,7 +65,7 @@ func TestC28(t *testing.T) {
 		}()
 		hasBody := false
 		for i := 0; i < k; i++ {
-			target := fmt.Sprintf("/c28/%d/%d", n, i)
+			target := fmt.Sprintf("%s/%d/%d", pfx, n, i)
 			decoy := fmt.Sprintf("GET /smuggled/%d/%d HTTP/1.1\r\nHost: example.org\r\n\r\n", n, i)
 			kind := rapid.SampledFrom([]string{"get", "get", "get", "head", "head", "post-cl", "post-cl", "post-cl", "post-chunked", "post-chunked", "post-expect", "post-expect", "malformed", "oversized"}).Draw(rt, "kind")
 			r := c28Req{Kind: kind, Target: target, Method: "GET"}
@@ -132,11 +148,11 @@ func TestC28(t *testing.T) {
 		for i := 0; i < ncut; i++ {
 			cuts = append(cuts, rapid.IntRange(1, len(stream)).Draw(rt, "cut"))
 		}
-		cls := []string{fmt.Sprintf("nreq:%d", k)}
+		cls := []string{fmt.Sprintf("nreq:%d", k), fmt.Sprintf("backend-keepalive:%v", pfx == "/c28k")}
 		for _, s := range shape {
 			cls = append(cls, "kind:"+s)
 		}
-		rec.Case(strings.Join(shape, ",")+fmt.Sprint(cuts), k >= 2 && hasBody, cls...)
+		rec.Case(pfx+strings.Join(shape, ",")+fmt.Sprint(cuts), k >= 2 && hasBody, cls...)
 		rec.Sample(map[string]any{"sequence": shape, "cuts": cuts, "stream_len": len(stream)})
 		wit := map[string]any{"sequence": shape, "cuts": cuts, "n": n}
 
@@ -215,7 +231,7 @@ func TestC28(t *testing.T) {
 			perr = parseMore()
 		}
 		<-done
-		sentinel := fmt.Sprintf("/c28/%d/sentinel", n)
+		sentinel := fmt.Sprintf("%s/%d/sentinel", pfx, n)
 		announcedClose := len(resps) > 0 && strings.Contains(strings.ToLower(strings.Join(resps[len(resps)-1].Get("Connection"), ",")), "close")
 		if perr == nil && ri >= len(reqs) && !closed && announcedClose {
 			more, _ := sys.ReadAllTimeout(c, 8*time.Second)
@@ -229,7 +245,12 @@ func TestC28(t *testing.T) {
 			more, _ := sys.ReadAllTimeout(c, 8*time.Second)
 			rest := append(append([]byte(nil), got[parsedUpTo:]...), more...)
 			sm, serr := ref.ParseResponse(rest, "GET", true)
-			if serr != nil || sm.ConsumedLen != len(rest) || sm.Status != 200 || len(sm.Get("X-Echo-Target")) != 1 || sm.Get("X-Echo-Target")[0] != sentinel {
+			if serr == nil && pfx == "/c28k" && sm.ConsumedLen == len(rest) && sm.Status/100 == 5 {
+				// backend connections that a scripted backend closed (early answers, close-delimited
+				// responses) may still sit in BFE's idle pool: a well-formed, aligned 5xx is the
+				// legitimate outcome of running into one
+				rec.Class("sentinel-5xx-on-stale-backend-connection")
+			} else if serr != nil || sm.ConsumedLen != len(rest) || sm.Status != 200 || len(sm.Get("X-Echo-Target")) != 1 || sm.Get("X-Echo-Target")[0] != sentinel {
 				wit["after_last_response"] = clipS(rest)
 				c.Close()
 				rec.Fail(rt, "extra-response-bytes", wit, "after %d responses to %d requests the connection carries more than the sentinel's answer (err=%v): %q", len(resps), len(reqs), serr, clipS(rest))
@@ -304,7 +325,7 @@ func TestC28(t *testing.T) {
 				continue
 			}
 			if !valid[tgt] {
-				if strings.HasPrefix(tgt, fmt.Sprintf("/c28/%d/", n)) || !strings.HasPrefix(tgt, "/c28/") {
+				if strings.HasPrefix(tgt, fmt.Sprintf("%s/%d/", pfx, n)) || !(strings.HasPrefix(tgt, "/c28/") || strings.HasPrefix(tgt, "/c28k/")) {
 					if !rec.Fail(rt, "unknown-target-at-backend", wit, "backend saw target %q", tgt) {
 						return
 					}
